@@ -7,6 +7,7 @@ import (
 	"errors"
 	"fmt"
 	"sort"
+	"strings"
 	"sync"
 	"time"
 
@@ -26,6 +27,7 @@ type Svc struct {
 	MaxInfl map[string]int
 	// Sched mode: ask the explorer for each request's outcome.
 	Outcomes   func(name string) []string // e.g. {"ok","fail","hang"}; nil = scripted by fail map
+	Pad        func(ver uint32) int       // if set, a version's value is preceded by this many filler bytes
 	Seams      bool                       // park at a scheduler seam before answering
 	Latency    time.Duration              // every request takes this long (virtual time) before it is answered
 	now        func() time.Duration
@@ -83,6 +85,10 @@ func (s *Svc) Put(name string) uint32 {
 	}
 	sec.Latest++
 	sec.Versions[sec.Latest] = Value(name, sec.Latest)
+	if s.Pad != nil {
+		// values of varying length (the version stays recognisable as the "#v<n>" suffix)
+		sec.Versions[sec.Latest] = strings.Repeat("~", s.Pad(sec.Latest)) + Value(name, sec.Latest)
+	}
 	sec.Active = sec.Latest
 	s.Act[name] = append(s.Act[name], Activation{sec.Active, s.seq()})
 	return sec.Latest
@@ -290,8 +296,9 @@ func (c *HCache) Write(b []byte) error {
 		c.FailNext = false
 		return errors.New("cache write failed (scripted)")
 	}
-	c.Data = append([]byte(nil), b...)
-	c.Writes = append(c.Writes, c.Data)
+	// like setec.MemCache, the cache keeps the very slice it was handed: the store must not touch it again
+	c.Data = b
+	c.Writes = append(c.Writes, append([]byte(nil), b...))
 	return nil
 }
 
